@@ -54,8 +54,34 @@ fn plan_of(v: &Value, i: usize) -> Plan {
     }
 }
 
-pub struct Run {
-    pub rig: Rig<Three>,
+/// A behaviour under test that contains probe behaviours (first probe = "b1").
+pub trait Suite: NetworkBehaviour + Sized {
+    fn build(ids: &Ids, log: &Log, cfg: &Value) -> Self;
+    fn probes(&self) -> Vec<&ProbeBehaviour>;
+    /// behaviour-specific commands (e.g. block / unblock); returns the event to log
+    fn control(&mut self, _ids: &Ids, _cmd: &Value) -> Option<Value> {
+        None
+    }
+}
+
+impl Suite for Three {
+    fn build(ids: &Ids, log: &Log, _cfg: &Value) -> Self {
+        Three {
+            b1: ProbeBehaviour::new("b1", ids.clone(), log.clone()),
+            b2: ProbeBehaviour::new("b2", ids.clone(), log.clone()),
+            b3: ProbeBehaviour::new("b3", ids.clone(), log.clone()),
+        }
+    }
+    fn probes(&self) -> Vec<&ProbeBehaviour> {
+        vec![&self.b1, &self.b2, &self.b3]
+    }
+}
+
+pub struct Run<B: Suite = Three>
+where
+    B::ToSwarm: std::fmt::Debug,
+{
+    pub rig: Rig<B>,
     /// connection (abstract id) of each transport dial slot
     pub slot_conn: Vec<i64>,
     /// connection of each incoming upgrade (filled when b1 sees cbPendingIn)
@@ -67,8 +93,11 @@ pub struct Run {
     pub seq: i64,
 }
 
-impl Run {
-    pub fn new(cfg: &Value) -> Run {
+impl<B: Suite> Run<B>
+where
+    B::ToSwarm: std::fmt::Debug,
+{
+    pub fn new(cfg: &Value) -> Run<B> {
         let rc = RigCfg {
             npeers: 4,
             dial_concurrency: cfg.get("concurrency").and_then(|x| x.as_u64()).unwrap_or(8) as u8,
@@ -79,12 +108,8 @@ impl Run {
         };
         let ids: Ids = make_ids(rc.npeers);
         let log = Log::default();
-        let b = Three {
-            b1: ProbeBehaviour::new("b1", ids.clone(), log.clone()),
-            b2: ProbeBehaviour::new("b2", ids.clone(), log.clone()),
-            b3: ProbeBehaviour::new("b3", ids.clone(), log.clone()),
-        };
-        for p in [&b.b1, &b.b2, &b.b3] {
+        let b = B::build(&ids, &log, cfg);
+        for p in b.probes() {
             p.ctl.with(|c| c.handler_keep_alive = true);
         }
         let mut rig = Rig::new(&rc, ids, log, b);
@@ -109,9 +134,8 @@ impl Run {
         self.events.extend(evs);
     }
 
-    fn behs(&self) -> [&ProbeBehaviour; 3] {
-        let b = self.rig.swarm.behaviour();
-        [&b.b1, &b.b2, &b.b3]
+    pub fn behs(&self) -> Vec<&ProbeBehaviour> {
+        self.rig.swarm.behaviour().probes()
     }
 
     /// execute one command; appends its events (cmd event, callbacks, swarm events, snap)
@@ -274,7 +298,13 @@ impl Run {
                     Err(m) => self.events.push(json!({"e": "panic", "msg": m})),
                 }
             }
-            x => panic!("unknown command {x}"),
+            x => {
+                let ids = self.rig.ids.clone();
+                match self.rig.swarm.behaviour_mut().control(&ids, c) {
+                    Some(ev) => self.events.push(ev),
+                    None => panic!("unknown command {x}"),
+                }
+            }
         }
         self.flush();
         let s = self.rig.snap();
@@ -347,7 +377,10 @@ impl Run {
     }
 }
 
-fn gen_cmd(r: &mut StdRng, run: &Run, maxconn: usize, deny_p: f64) -> Value {
+pub fn gen_cmd<B: Suite>(r: &mut StdRng, run: &Run<B>, maxconn: usize, deny_p: f64) -> Value
+where
+    B::ToSwarm: std::fmt::Debug,
+{
     let (open_d, open_u): (Vec<usize>, Vec<usize>) = run.rig.world.with(|w| {
         (
             w.dials.iter().enumerate().filter(|(_, s)| !s.done && !s.dropped && s.outcome.is_none()).map(|(i, _)| i).collect(),
@@ -401,7 +434,7 @@ fn gen_cmd(r: &mut StdRng, run: &Run, maxconn: usize, deny_p: f64) -> Value {
     json!({"c": "poll"})
 }
 
-fn write_run(out: &mut Out, cfg: &Value, sched: &[Value], events: Vec<Value>) {
+pub fn write_run(out: &mut Out, cfg: &Value, sched: &[Value], events: Vec<Value>) {
     out.reset_with(cfg.clone(), &json!({"cfg": cfg, "cmds": sched}));
     for e in events {
         out.ev(e);
@@ -416,7 +449,7 @@ pub fn main(a: &vcommon::Args) {
             let mut out = Out::create(a.get(2));
             for s in &scheds {
                 let cfg = s["cfg"].clone();
-                let mut run = Run::new(&cfg);
+                let mut run: Run<Three> = Run::new(&cfg);
                 for c in s["cmds"].as_array().unwrap() {
                     run.exec(c);
                 }
@@ -437,7 +470,7 @@ pub fn main(a: &vcommon::Args) {
             for _ in 0..runs {
                 let deny_p = [0.0, 0.0, 0.1, 0.3][r.gen_range(0..4)];
                 let cfg = json!({"concurrency": r.gen_range(1..=3), "maxconn": maxconn});
-                let mut run = Run::new(&cfg);
+                let mut run: Run<Three> = Run::new(&cfg);
                 let mut sched = vec![];
                 for _ in 0..steps {
                     let mut c = gen_cmd(&mut r, &run, maxconn, deny_p);
